@@ -17,7 +17,8 @@ MANIFEST = dict(
          "option no loop label's guard depends on running jobs, the loop is never in a blocking position and a due entry reaches ExecStart "
          "within three labels whatever is running. The switch (guards, order, actions), the pool loop bounds and wg.Add placement are "
          "regenerated from scheduler.go on every run. On the real scheduler n jobs meeting at a barrier of size n must pass it, n+1 must "
-         "never all be inside, after p = 1..n executions that panicked n jobs must still meet at a barrier of n (compared with the model run "
+         "never all be inside, with every worker busy a waiting job must start as soon as ANY worker frees up, a long-running job whose "
+         "Description() blocks while its Execute runs / is slow / panics must not delay a sibling or its own fire times, after p = 1..n executions that panicked n jobs must still meet at a barrier of n (compared with the model run "
          "panic_rounds ++ fill_pool n), the in-flight maximum (sampled at every Execute entry/exit) must respect the bound under mixed workloads, and "
          "in unbounded mode a never-returning job delays neither a sibling nor its own next fire times. True parallelism is observed, not proved.",
     design_ref="6 C12")
@@ -48,6 +49,20 @@ def oracle(r):
                        "a worker); %d of %d executions" % (r["limit"], r["panics"], r["barrier"], r["execs"], r["jobs"]))
         elif r["execs"] < r["jobs"]:
             why.append("pool of %d: only %d of %d due jobs were executed after %d panics" % (r["limit"], r["execs"], r["jobs"], r["panics"]))
+    if r["test"].startswith("desc_") and r["mode"] == "unbounded":
+        what = {"desc_mutex": "blocks while the job's own Execute is in progress (one mutex around both)", "desc_slow": "takes 300 ms",
+                "desc_panic": "panics"}[r["test"]]
+        if r["sibling_max_gap_ms"] > 450:
+            why.append("unbounded mode: while a long-running job (fire time every 60 ms, Execute ends with the scheduler) whose Description() %s was "
+                       "executing, a sibling ticker (every 10 ms) was not dispatched for %d ms" % (what, r["sibling_max_gap_ms"]))
+        if r["own_next_execs"] < 4:
+            why.append("unbounded mode: the long-running job's own next fire times were not dispatched (%d in 1.5 s, one every 60 ms); its "
+                       "Description() %s" % (r["own_next_execs"], what))
+    if r["test"] == "handover_when_any_worker_frees":
+        if not r["barrier_reached"]:
+            why.append("pool of %d, every worker busy, one more job due: when the job that had started %s ended (the others still running), the "
+                       "waiting job did not start within 3 s -- only %d of %d can run in parallel" % (
+                           r["limit"], ["first", "second", "third"][r["barrier"]], r["limit"] - 1, r["limit"]))
     if r["test"] == "retrying_independent":
         if r["sibling_max_gap_ms"] > 450:
             why.append("unbounded mode: while a failing job was in its retry sequence a sibling ticker (every 10 ms) was not dispatched for %d ms" % r["sibling_max_gap_ms"])
@@ -119,6 +134,41 @@ def run_modes(binp, seed, tier):
 KEY = ("mode", "limit", "test", "jobs", "restart", "panics")
 
 
+def run_desc(binp, seed):
+    """Jobs with a badly behaved Description(), hand-over to whichever worker frees up (looph descmodes)."""
+    rows = []
+    for which in ("nopanic", "panic"):
+        rc, rws, out = lc.run_json([binp, "descmodes", str(seed), which], timeout=300)
+        rows += [r for r in rws if r.get("kind") == "modes"]
+        if rc != 0:
+            if "panic:" in out or "fatal error:" in out:
+                m = out[out.find("panic:") if "panic:" in out else out.find("fatal error:"):]
+                if not any(c["case"].get("which") == which for c in CRASHES):
+                    CRASHES.append({"case": {"kind": "descmodes-crash", "seed": seed, "which": which},
+                                    "why": ["the scheduler process died while running jobs whose Description() %s (all three modes; Execute long-running): %s"
+                                            % ("panics" if which == "panic" else "blocks / is slow", m[:700])],
+                                    "how": "looph descmodes %d %s" % (seed, which)})
+            else:
+                raise RuntimeError("looph descmodes failed: " + out[-2000:])
+    return rows
+
+
+def desc_failures(binp, seed):
+    rows = run_desc(binp, seed)
+    bad = [r for r in rows if oracle(r)]
+    out = []
+    if bad:
+        again = [x for x in run_desc(binp, seed + 1) if oracle(x)]
+        for r in bad:
+            if any(all(x.get(k) == r.get(k) for k in KEY + ("barrier",)) for x in again) and len(out) < 2:
+                out.append({"case": {"kind": "descmodes", **{k: r.get(k) for k in ("mode", "limit", "test", "jobs", "barrier", "bound", "seed")}}, "why": oracle(r),
+                            "observed": {k: r.get(k) for k in ("sibling_execs", "own_next_execs", "sibling_max_gap_ms", "max_inflight", "execs")},
+                            "how": "looph descmodes: (desc_*) a ticker every 10 ms and a long-running job (every 60 ms) with the given Description(); "
+                                   "(handover) WorkerLimit n, n jobs held, one more due, then the i-th started job ends"})
+    return rows, out
+
+
+
 def run(ctx):
     res, broken = vlib.proof_step(ctx, PROJ, "C12", lc.genparams)
     binp = lc.looph()
@@ -127,7 +177,10 @@ def run(ctx):
         for k in range(1, 4):
             rows += run_modes(binp, ctx.seed + k, "thorough")
     failures, mismatches = [], []
-    failures += CRASHES[:1]
+    desc_rows, df = desc_failures(binp, ctx.seed)
+    rows += [r for r in desc_rows if not oracle(r)]   # the bound of the model is compared on these too
+    failures += df
+    failures += CRASHES[:2]
     for r in [x for x in rows if oracle(x)][:4]:
         if len(failures) >= 2:
             break
@@ -181,6 +234,14 @@ def replay(ctx, path):
     obj = json.load(open(path))
     c = obj.get("case", {})
     binp = lc.looph()
+    if c.get("kind") in ("descmodes", "descmodes-crash"):
+        del CRASHES[:]
+        rows, df = desc_failures(binp, c.get("seed", ctx.seed))
+        for f in CRASHES[:1] + df:
+            vlib.report_violation(ctx, f)
+            return 1
+        print("descmodes: %d scenarios, none failing" % len(rows))
+        return 0
     if c.get("kind") == "modes-crash":
         del CRASHES[:]
         run_modes(binp, c.get("seed", ctx.seed), c.get("tier", "quick"))
